@@ -65,6 +65,9 @@ def build(case):
             return ["u%d" % i for i in range(self.Get_dof_n(problemType))]
 
         def Construct_local_matrix_system(self, problemType):
+            if getattr(self, "fail_once", False):
+                self.fail_once = False
+                raise RuntimeError("element arrays are not available yet")
             return self.table
 
     simu = Simu(meshes[case["mesh0"]], Models.Thermal(k=1, c=1, thickness=1))
@@ -245,13 +248,27 @@ def run_kcmf(case):
         tabs.append(tab)
         slots_of.append(slots)
     nget = 0
+    cur_tab = {0: 0, 1: 1}
     for iop, op in enumerate(case["ops"]):
         k = op["op"]
-        if k == "get":
+        if k == "retable":
+            cur_tab[op["mesh"]] = op["table_idx"]
+            simu.Need_Update()
+        elif k == "failget":
+            act = [i for i, m in enumerate(meshes) if m is simu.mesh]
+            simu.table = tabs[cur_tab.get(act[0] if act else 0, 0)]
+            simu.fail_once = True
+            try:
+                simu.Get_K_C_M_F()
+            except RuntimeError:
+                pass
+            finally:
+                simu.fail_once = False
+        elif k == "get":
             act = [i for i, m in enumerate(meshes) if m is simu.mesh]
             act = act[0] if act else -1
             res["active"].append(act)
-            simu.table = tabs[act]
+            simu.table = tabs[cur_tab.get(act, 0)]
             K, C, M, F = simu.Get_K_C_M_F()
             Ndof = K.shape[0]
             out = []
@@ -260,7 +277,7 @@ def run_kcmf(case):
                 isM = si < 3
                 exp_Ndof = meshes[op["expect_mesh"]].Nn * dof_n
                 shape_ok = X.shape == ((exp_Ndof, exp_Ndof) if isM else (exp_Ndof, 1))
-                D = dense_reference(groups, slots_of[op["expect_mesh"]][si], dof_n, exp_Ndof, isM)
+                D = dense_reference(groups, slots_of[op["table_idx"]][si], dof_n, exp_Ndof, isM)
                 if res["prop_fail"] is None and (act != op["expect_mesh"] or not shape_ok or not np.array_equal(X.toarray().astype(complex), D)):
                     res["prop_fail"] = {"op_index": iop, "assembly_index": nget, "slot": "KCMF"[si], "active_mesh": act, "expected_mesh": op["expect_mesh"],
                                         "impl": X.toarray().real.tolist() if shape_ok else str(X.shape), "dense": D.real.tolist()}
